@@ -799,6 +799,7 @@ func names(h []int) []string {
 // ---- the check --------------------------------------------------------------------------
 
 func TestCheck(t *testing.T) {
+	vk.UseT(t)
 	debug.SetGCPercent(400) // many tiny short-lived stores; the live heap is small
 	bq, bt := 110*time.Second, 16*time.Minute
 	if os.Getenv("C11_FAMILY") == "dropped" {
